@@ -223,7 +223,7 @@ func H_C16_writers() {
 		tbl.rows.ReplaceOrInsert(two(string([]byte{'a', byte('0' + i/10), byte('0' + i%10)})))
 	}
 	tbl.rows.ReplaceOrInsert(two("s"))
-	target := []string{"s", "t", "a50"}[vChoice("writer.target", 0, 2)]
+	target := []string{"s", "t", "a50", "a99"}[vChoice("writer.target", 0, 3)] // a99 is the 100th row: the one at which the pass gives up the lock
 	val := vNondetBytes("writer.val", 1)
 	deleteRow := vChoice("writer.kind", 0, 1) == 1
 	acked := false
